@@ -199,6 +199,15 @@ CHECKS = {
          'byte with hashlib/hmac; hex_bytes/2, chars_base64/3 (padding x charset) and chars_utf8bytes/2 are compared in both '
          'directions; chacha20-poly1305 encrypt->decrypt must return the plaintext and a flipped tag/ciphertext/aad byte must be rejected.',
     note='AEAD ciphertext bytes are not compared (no reference in the stdlib). Password hashing, signatures and curves are outside the statement.'),
+ 'C41': dict(
+    level='exploration',
+    technique='runtime monitoring: reference parser (Python json) mapped to the documented term form + generate/parse round trip + rejection of invalid documents',
+    text='Random JSON values (nested objects with duplicate keys, arrays, strings with every escape form and raw multi-byte '
+         'characters, integers of any size, -0, fractions, signed exponents, literals) rendered with random whitespace are parsed '
+         'with phrase(json_chars(T), Text) and compared with json.loads mapped to pairs/list/string/number/boolean/null; terms are '
+         'generated to text which must load to the same value and parse back to the same term; invalid documents must have no parse.',
+    note='First solution only; non-integer numbers within 2 ulp (the library computes them arithmetically); surrogate-pair '
+         'escapes are not generated.'),
 }
 
 NOT_APPLICABLE_REASON_UNBUILT = ('check designed in DESIGN.md but not built/validated yet in this session; '
